@@ -157,6 +157,7 @@ KINDS = {
     'list': ([3, 1], '[x0, x1][:n]'),
     'dict': ({'a': 3, 'b': 1}, "{'a': x0, 'b': x1} (first n keys)"),
     'set': ({3, 1}, '{x0, x1} (n elements, values in [0,1])'),
+    'wdict': ({'2nd': 3, '$r': 1}, "{'2nd': x0, '$r': x1} (first n keys; not keyword-shaped)"),
     'nlist': ([[3, 1], [1]], '[[x0, x1], [x1]][:n]'),
     'ndict': ({'a': [3, 1], 'b': {'a': 1}}, "{'a': [x0, x1], 'b': {'a': x1}} (first n keys)"),
 }
